@@ -1,6 +1,6 @@
 (* C04 — Names in expressions resolve to the object Python scoping binds them to.  Property theorems only. *)
 From Coq Require Import List String Bool Arith.
-From Verif Require Import Lib.Sexp Model.C04_scope Proofs.C04_scope Model.C04_expr Proofs.C04_expr.
+From Verif Require Import Lib.Sexp Model.C04_scope Proofs.C04_scope Model.C04_expr Proofs.C04_expr Model.C04_stubs Proofs.C04_stubs.
 Import ListNotations.
 Open Scope string_scope. Open Scope list_scope. Open Scope nat_scope.
 
@@ -222,3 +222,42 @@ Theorem C04_starred_targets_needed :
               /\ g_names v_fixed c e = p_names c e.
 Proof. exact starred_targets_needed. Qed.
 Print Assumptions C04_starred_targets_needed.
+
+(* ================================================================ part 3 (Model/C04_stubs.v, Proofs/C04_stubs.v)
+   The scope of a name written in a stubs file (.pyi) is that file's module, wherever the merge moves its objects. *)
+
+(* the walk sees a module frame only through its name and its lookup of the name *)
+Theorem C04_resolve_module_congr : forall sk n F F' rest, same_lookup n F F' ->
+  forall cs skipping, resolve_v sk skipping (cs ++ F :: rest) n = resolve_v sk skipping (cs ++ F' :: rest) n.
+Proof. exact resolve_v_module_congr. Qed.
+Print Assumptions C04_resolve_module_congr.
+
+(* expressions that keep the stubs scope chain (merged annotations, objects defined on both sides): resolution in the stubs
+   module = resolution in the reference module (stubs text as the module, submodules attached), for every form of the walk, all
+   frames above and below, every name -- unless the name is a submodule the stubs module does not itself hold (C04-F7) *)
+Theorem C04_stub_scope_kept : forall sk f subs S rest cs n,
+  fkind f = KModule -> gap_stub_kept subs S n = false ->
+  resolve_v sk false (cs ++ stub_frame f S :: rest) n = resolve_v sk false (cs ++ reference_frame f subs S :: rest) n.
+Proof. exact stub_scope_kept. Qed.
+Print Assumptions C04_stub_scope_kept.
+
+(* objects declared in the stubs only, moved into the merged concrete module (concrete members, names only the stubs bind --
+   import aliases included --, submodules): the same, unless the concrete module binds the name differently from the stubs *)
+Theorem C04_stub_scope_moved : forall sk f subs C S rest cs n,
+  fkind f = KModule -> gap_stub_moved subs C S n = false ->
+  resolve_v sk false (cs ++ merged_frame f subs C S :: rest) n = resolve_v sk false (cs ++ reference_frame f subs S :: rest) n.
+Proof. exact stub_scope_moved. Qed.
+Print Assumptions C04_stub_scope_moved.
+
+Theorem C04_stub_scope_moved_subset : forall sk f subs C S rest cs n,
+  fkind f = KModule ->
+  (forall k c, lookup k C = Some c -> lookup k S = Some c) ->
+  resolve_v sk false (cs ++ merged_frame f subs C S :: rest) n = resolve_v sk false (cs ++ reference_frame f subs S :: rest) n.
+Proof. exact stub_scope_moved_subset. Qed.
+Print Assumptions C04_stub_scope_moved_subset.
+
+Theorem C04_stub_submodule_refuted :
+  exists f subs S cs n, fkind f = KModule /\ gap_stub_kept subs S n = true /\
+    resolve_v true false (cs ++ stub_frame f S :: []) n <> resolve_v true false (cs ++ reference_frame f subs S :: []) n.
+Proof. exact stub_submodule_refuted. Qed.
+Print Assumptions C04_stub_submodule_refuted.
